@@ -17,7 +17,8 @@ up to the tier's length bound at every pipelining depth (handle()), random longe
 socket served by listen()); oracles: reference model (a oneway request gets no reply, later replies stay aligned \
 by token) and a metamorphic twin (the reply bytes equal those of the same stream with the oneway requests \
 removed). client: random histories of {call, oneway, more} over the real listen() server on one connection; \
-oneway() returns Ok, leaves both connection slots in place, and the next call receives its own token. \
+oneway() returns Ok, leaves both connection slots in place, and the next call receives its own token; over a \
+scripted fake peer, the complete request is on the wire the moment oneway()/call() returns. \
 Non-trivial: the sequence contains a oneway request whose non-oneway twin would be answered (by the library: \
 built-in interface, unknown interface/method, no dot, bad parameters; or by the implementation) followed by a \
 non-oneway request; distinct by (symbol sequence, depth, transport) resp. op history.";
@@ -381,11 +382,78 @@ fn client_histories(ctx: &mut Ctx, cases: u32) {
     let _ = server.stop();
 }
 
+/// "returns after sending": over a scripted fake peer, the complete request of a oneway call (and of
+/// every other call) is on the wire the moment the client call returns - not at the next call, not
+/// when the connection is dropped.
+pub fn run_sent_on_return(ops: &[(bool, usize, Value)]) -> Result<(), Fail> {
+    use crate::fake::{vcall, Fake};
+    const METHODS: [&str; 4] = ["org.verif.test.Echo", "org.example.x.Ping", "org.varlink.service.GetInfo", "a.b.C"];
+    let mut fake = Fake::new();
+    for (i, (oneway, m, params)) in ops.iter().enumerate() {
+        let method = METHODS[*m % METHODS.len()];
+        let mut call = vcall(&fake.conn, method, params.clone());
+        if *oneway {
+            call.oneway().map_err(|e| Fail::new("client/oneway-failed/fake", format!("op #{} oneway returned {:?}", i, e.kind())))?;
+        } else {
+            fake.push_replies(&[json!({"parameters": {"i": i}})]);
+            let r = call.call().map_err(|e| Fail::new("client/call-failed/fake", format!("op #{} call returned {:?}", i, e.kind())))?;
+            if r != json!({"i": i}) {
+                return Err(Fail::new(
+                    "client/reply-misaligned-after-oneway/fake",
+                    format!("op #{} call received {} instead of its own reply {{\"i\":{}}} (history {:?})", i, r, i, ops),
+                ));
+            }
+        }
+        let reqs = fake.requests().map_err(|e| Fail::new("client/oneway-not-sent-on-return", format!("after op #{} returned: {}", i, e)))?;
+        if reqs.len() != i + 1 {
+            return Err(Fail::new(
+                if *oneway { "client/oneway-not-sent-on-return" } else { "client/request-count" },
+                format!("after op #{} ({}) returned, the peer has received {} complete requests instead of {} (history {:?})", i, if *oneway { "oneway" } else { "call" }, reqs.len(), i + 1, ops),
+            ));
+        }
+        let last = &reqs[i];
+        let flag_ok = if *oneway { last.get("oneway") == Some(&json!(true)) } else { last.get("oneway").map(|v| v == &json!(false) || v.is_null()).unwrap_or(true) };
+        if last["method"] != method || last.get("parameters") != Some(params) || !flag_ok {
+            return Err(Fail::new(
+                "client/oneway-wrong-request",
+                format!("op #{} ({} {} {}) put {} on the wire", i, if *oneway { "oneway" } else { "call" }, method, params, last),
+            ));
+        }
+        if !fake.slots_present() {
+            return Err(Fail::new("client/oneway-took-slot/fake", format!("after op #{} the connection's reader/writer slot is empty", i)));
+        }
+    }
+    Ok(())
+}
+
+fn sent_ops_json(ops: &[(bool, usize, Value)]) -> Value {
+    Value::Array(ops.iter().map(|(o, m, p)| json!({"oneway": o, "method": m, "params": p})).collect())
+}
+
+fn sent_on_return(ctx: &mut Ctx, cases: u32) {
+    let strat = prop::collection::vec((prop::bool::weighted(0.6), 0usize..4, vl_model::jsongen::json_object(2).prop_map(|v| vl_model::jsongen::stabilise(&v))), 1..=8);
+    let r = pt::check_with(ctx, "c04-sent", cases, 300, 30_000, strat, |ctx, ops| {
+        // non-trivial: a oneway call is the last operation, or two oneway calls follow each other
+        let nt = ops.last().map(|o| o.0).unwrap_or(false) || ops.windows(2).any(|w| w[0].0 && w[1].0);
+        ctx.case(if nt { Some(hash64(&sent_ops_json(ops).to_string())) } else { None });
+        ctx.class("client:sent-on-return(fake peer)");
+        ctx.sample(|| json!({"sent_ops": sent_ops_json(ops)}));
+        run_sent_on_return(ops)
+    });
+    if let Some((ops, f)) = r {
+        ctx.violation(&f.key, &f.what, "c04-client", json!({"sent_ops": sent_ops_json(&ops)}));
+    }
+}
+
 fn replay(ctx: &mut Ctx, v: &Value) {
     let cj = &v["case"];
     ctx.case(None);
     ctx.force_sample(cj.clone());
-    let res = if let Some(ops) = cj.get("ops").and_then(|o| o.as_array()) {
+    let res = if let Some(ops) = cj.get("sent_ops").and_then(|o| o.as_array()) {
+        let ops: Vec<(bool, usize, Value)> =
+            ops.iter().map(|x| (x["oneway"].as_bool().unwrap_or(false), x["method"].as_u64().unwrap_or(0) as usize, x["params"].clone())).collect();
+        run_sent_on_return(&ops)
+    } else if let Some(ops) = cj.get("ops").and_then(|o| o.as_array()) {
         let ops: Vec<Op> = ops.iter().filter_map(|x| x.as_str().and_then(op_from)).collect();
         let scratch = Scratch::new("c04r");
         let addr = scratch.unix_addr("c04.sock");
@@ -438,6 +506,8 @@ pub fn run(args: &Args) -> ! {
     ctx.bump_sample_cap(4);
     let n = ctx.tier.pick(1_500, 30_000);
     client_histories(&mut ctx, n);
+    let n = ctx.tier.pick(3_000, 60_000);
+    sent_on_return(&mut ctx, n);
     ctx.exhaustive = Some(false);
     ctx.finish()
 }
